@@ -230,6 +230,23 @@ pub fn generate(seed: u64, thorough: bool, emit: &mut dyn FnMut(String)) {
     for c in TABLE_CHARS {
         emit(format!("class {}", *c as u32));
     }
+    // the largest exponents the parser accepts (its dense vector is capped at MAX_POWER = 65536) and their
+    // neighbours: accepted ones carry their meaning, the others are compared with the model only
+    for (text, want) in [
+        ("x^65536", Some("1 0 1 0 65536")),
+        ("2y ^ 065536 - y^65535 + 1", Some("3 0 2 0 65536 1 1 0 65535 0 1 0 0")),
+        ("x^65535", Some("1 0 1 0 65535")),
+        ("x^65537", None),
+        ("x^65536 + x^65537", None),
+        ("x^99999", None),
+    ] {
+        for entry in 0..2 {
+            match want {
+                Some(w) => emit(format!("parse {entry} {} | {w}", req_string(text))),
+                None => emit(format!("parse {entry} {}", req_string(text))),
+            }
+        }
+    }
     let n = if thorough { 100_000 } else { 3000 };
     for i in 0..n {
         let (text, want) = gen_poly_text(&mut rng);
